@@ -31,7 +31,8 @@ SPEC = dict(
              'The cryptographic primitives (X25519, Ed25519<->Curve25519 maps, AES-256-CTR, SHA-256, Ed25519 sign/verify, HMAC-SHA512, PBKDF2) are '
              'NOT verified: they are parameters and their algebraic laws (DH commutativity, CTR involution + length, signature correctness, digest '
              'lengths) are hypotheses, shown satisfiable by toy primitives (CTR involution is alternatively derived from "output = input xor key stream"). Rejection of altered message/key/signature (unforgeability) is only '
-             'tested. The real library is exercised with both real peers and against an independent libsodium/pycryptodome transcription.'
+             'tested. The real library is exercised with both real peers and against an independent libsodium/pycryptodome transcription (plaintexts of 0..4096 bytes '
+             'and of every length around the sizes the current source mentions - L-1, L, L+1, 2L, 3L, L +- block, the multiples of each block size above L - up to 4 MiB).'
              ' SOURCE TIE: the glue code itself is REGENERATED from the Python source on every run (Generated/AdnlSrc.lean): Client / Server / '
              'AdnlChannel.__init__ (key conversions, shared key, the three-way id comparison, [::-1]), get_key_aes_id, '
              'create_aes_ctr_sipher_from_key_n_data + create_aes_ctr_cipher (slice bounds, 32-byte guard, AES.new argument check), encrypt / decrypt '
@@ -67,7 +68,7 @@ SPEC = dict(
     lean_targets=['TonVerif.Proofs.SrcAdnl', 'TonVerif.Proofs.SrcAdnlLoop'],
     design_ref='DESIGN.md §6 C20',
     rule='channel case = (seed a, seed b, id variant: natural/swapped/equal/prefix/empty, plaintext length 0..4096 incl. block boundaries), both directions; '
-         'self channel a=b; cipher-guard case = (key length, data length) around 16/20/32; sign case = (seed, message, one alteration of message/key/signature); '
+         'plaintext lengths around every int literal of the current ciphers.py / signature.py / keys.py (and the powers of two next to it) up to 4 MiB; self channel a=b; cipher-guard case = (key length, data length) around 16/20/32; sign case = (seed, message, one alteration of message/key/signature); '
          'mnemonic case = one mnemonic_new() output (validated, derived twice, compared with hashlib/libsodium) or one recorded os.urandom stream; '
          'distinct = distinct inputs; non-trivial = plaintext/message non-empty or structural case',
     trusted_base=['Generated/AdnlSrc.lean is regenerated from ciphers.py / signature.py / keys.py by pyprims.py under the declared interface of adnlsrc.py '
@@ -136,7 +137,7 @@ def ordering(l, p):
     return 'local>peer' if l > p else 'local<peer' if l < p else 'equal'
 
 
-def check_channel(ctx, a, b, ida, idb, msgs, tag):
+def check_channel(ctx, a, b, ida, idb, msgs, tag, model_max=8192):
     from pytoniq_core.crypto.ciphers import Client, Server, AdnlChannel
     inp0 = {'kind': 'channel', 'a': a.hex(), 'b': b.hex(), 'ida': ida.hex(), 'idb': idb.hex(), 'tag': tag}
     ca, cb = Client(a), Client(b)
@@ -164,9 +165,17 @@ def check_channel(ctx, a, b, ida, idb, msgs, tag):
         srv = Server('', 0, pb if X is A else pa)
         if call(srv.get_key_id) != sha(MAGIC_KEY + (pb if X is A else pa)):
             ctx.fail('keyid-server:', 'Server.get_key_id != sha256(c6b41348 || pub)', inp0)
-        for m in msgs:
-            inp = dict(inp0, direction=name, m=m.hex())
-            ctx.case(('chan', a, b, ida, idb, name, m), nontrivial=len(m) > 0,
+        for item in msgs:
+            if isinstance(item, tuple):
+                # a LARGE plaintext, named by (seed, length) so that the replay file stays small
+                m = big_plaintext(*item)
+                inp = dict(inp0, direction=name, m_seed=item[0], m_len=item[1])
+                mdesc = ('seeded', item[0], item[1])
+            else:
+                m = item
+                inp = dict(inp0, direction=name, m=m.hex())
+                mdesc = m
+            ctx.case(('chan', a, b, ida, idb, name, mdesc), nontrivial=len(m) > 0,
                      sample={'kind': 'channel', 'ordering': od, 'len': len(m), 'direction': name, 'tag': tag})
             ctx.count(f'len<{1 << max(len(m) - 1, 0).bit_length()}' if m else 'len=0')
             pkt = call(X.encrypt, m)
@@ -183,21 +192,22 @@ def check_channel(ctx, a, b, ida, idb, msgs, tag):
             back = call(Y.decrypt, body, cs)
             if back != m:
                 ctx.fail(f'roundtrip:{od}', "peer's channel does not decrypt what this channel encrypted", inp,
-                         back.hex()[:200] if back is not None else 'exception', m.hex()[:200])
+                         f'{len(back)} bytes: ' + back.hex()[:200] if back is not None else 'exception', f'{len(m)} bytes: ' + m.hex()[:200])
             ref = RX.encrypt(m)
             if pkt != ref or RY.decrypt(body, cs) != m:
                 ctx.fail(f'interop:{od}', 'packet differs from the independent ADNL reference (libsodium X25519, AES-256-CTR key = k[0:16]||sum[16:32], '
                          'iv = sum[0:4]||k[20:32], head = sha256(d4adbc2d||k) || sha256(m))', inp, pkt.hex()[:300], ref.hex()[:300])
-            elif ctx.driver_ok:
+            elif ctx.driver_ok and len(m) <= model_max:      # the driver hashes in Lean: small plaintexts only
                 lines.append(f'adnl_packet {hx(RX.shared)} {hx(lid)} {hx(pid)} {hx(m)}')
                 after.append(('enc', pkt, m, od))
                 lines.append(f'adnl_dec {hx(RY.shared)} {hx(pid)} {hx(lid)} {cs.hex()}')
                 after.append(('dec', body, m, od))
         # traffic on ONE channel object: the same plaintext sent again, packets duplicated / dropped / reordered on the way -
         # every packet is a function of (keys, plaintext) only and every delivered packet decrypts to its plaintext
-        if msgs:
+        small = [x for x in msgs if isinstance(x, bytes)]
+        if small:
             rng = ctx.rng
-            m1, m2 = msgs[0], msgs[-1]
+            m1, m2 = small[0], small[-1]
             sent = [m1, m1, m2, m1, m1, b'', b'', m2]
             pkts = [call(X.encrypt, m) for m in sent]
             for k, (m, pkt) in enumerate(zip(sent, pkts)):
@@ -227,6 +237,41 @@ def check_channel(ctx, a, b, ida, idb, msgs, tag):
                 good = aes_ctr(bytes.fromhex(ws[1]), bytes.fromhex(ws[2]), data) == m
             if not good:
                 ctx.corr_broken(f'model {kind}rypt parameters do not reproduce the library ({od}): request={line[:200]} answer={out[:200]}')
+
+
+def big_plaintext(seed, n):
+    import random
+    return random.Random(seed).randbytes(n)
+
+
+ADNL_FILES = ['pytoniq_core/crypto/ciphers.py', 'pytoniq_core/crypto/signature.py', 'pytoniq_core/crypto/keys.py']
+SIZE_CAP = (4 << 20) + 64
+
+
+def source_sizes():
+    """Round 10 class: plaintext / message lengths around every size the CURRENT source mentions (int literals and folded int expressions
+    of ciphers.py / signature.py / keys.py, the powers of two next to them): L-1, L, L+1, 2L, 3L, L +- block and the multiples of each
+    block size at and above L (block sizes: 16 = AES, and the small ints of the source), capped at 4 MiB."""
+    from harness.gen.literals import source_literals, size_candidates
+    ints = source_literals(ADNL_FILES).ints
+    blocks = sorted({16} | {v for v in ints if 8 <= v <= 64})
+    return size_candidates(ints, blocks=blocks, cap=SIZE_CAP, min_size=8)
+
+
+def source_size_cases(ctx):
+    rng = ctx.rng
+    sizes = source_sizes()
+    ctx.count('source-sizes', len(sizes))
+    ctx.count('source-sizes>64KiB', len([n for n in sizes if n > 65536]))
+    a, b = rng.randbytes(32), rng.randbytes(32)
+    ka, kb = sha(MAGIC_KEY + crypto_sign_seed_keypair(a)[0]), sha(MAGIC_KEY + crypto_sign_seed_keypair(b)[0])
+    mseed = rng.randrange(1 << 32)
+    check_channel(ctx, a, b, ka, kb, [(mseed + i, n) for i, n in enumerate(sizes)], 'source-sizes', model_max=1100)
+    # the signing helpers on messages of these lengths (up to 128 KiB; sign_message slices sig || msg)
+    for n in [n for n in sizes if n <= 4200] if ctx.thorough else rng.sample([n for n in sizes if n <= 4200], 12):
+        check_sign(ctx, rng.randbytes(32), rng.randbytes(n), rng.randbytes(32))
+    for n in rng.sample([n for n in sizes if 4200 < n <= 1 << 17] or [4201], 3):
+        check_sign(ctx, rng.randbytes(32), rng.randbytes(n), rng.randbytes(32))
 
 
 def channel_cases(ctx):
@@ -750,6 +795,7 @@ def run(ctx):
         src_search(ctx)
         if ctx.failures:              # the differing points already gave concrete failing inputs: report them
             return
+    source_size_cases(ctx)
     channel_cases(ctx)
     cipher_cases(ctx)
     sign_cases(ctx)
@@ -765,7 +811,7 @@ def replay(ctx, payload):
     if k == 'colliding-mnemonics':
         check_colliding(ctx, inp['pairs'])
     elif k == 'channel':
-        msgs = [bytes.fromhex(inp['m'])] if 'm' in inp else [b'', b'abc']
+        msgs = [bytes.fromhex(inp['m'])] if 'm' in inp else [(inp['m_seed'], inp['m_len'])] if 'm_len' in inp else [b'', b'abc']
         check_channel(ctx, bytes.fromhex(inp['a']), bytes.fromhex(inp['b']), bytes.fromhex(inp['ida']), bytes.fromhex(inp['idb']), msgs, inp.get('tag', 'replay'))
     elif k == 'cipher':
         check_cipher(ctx, bytes.fromhex(inp['key']), bytes.fromhex(inp['data']))
